@@ -5,6 +5,10 @@ package main
 // service whose methods record being called.
 
 import (
+	mh "github.com/multiformats/go-multihash"
+	"github.com/ipfs/go-cid"
+	"encoding/binary"
+	"crypto/sha256"
 	"bytes"
 	"crypto/ed25519"
 	"encoding/json"
@@ -178,6 +182,19 @@ func newC20Env(seed int64) (*c20Env, error) {
 	bNoRoots := readAll(car.Encode(nil, m1.Blocks()))
 	// a message CAR with the last 7 bytes cut off
 	bTrunc := append([]byte{}, b1[:len(b1)-7]...)
+	// a valid message followed by one more section whose bytes do NOT hash to its CID (one bit flipped), under a raw-codec
+	// and under a dag-cbor CID: the body is not a well-formed archive
+	corrupt := func(codec uint64) []byte {
+		data := []byte("an attached payload, a few dozen bytes long, nothing decodes it")
+		sum := sha256.Sum256(data)
+		d, _ := mh.Encode(sum[:], mh.SHA2_256)
+		c := cid.NewCidV1(codec, d).Bytes()
+		bad := append([]byte{}, data...)
+		bad[len(bad)/2] ^= 0x04
+		sec := append(append(binary.AppendUvarint(nil, uint64(len(c)+len(bad))), c...), bad...)
+		return append(append([]byte{}, b1...), sec...)
+	}
+	bCorruptRaw, bCorruptCbor := corrupt(0x55), corrupt(0x71)
 	gr := rand.New(rand.NewSource(seed*7919 + 3))
 	garbage := make([]byte, 64+gr.Intn(200))
 	gr.Read(garbage)
@@ -191,6 +208,8 @@ func newC20Env(seed int64) (*c20Env, error) {
 		{Name: "car-delegation-archive", Class: 0, Bytes: bArchive},
 		{Name: "car-no-roots", Class: 0, Bytes: bNoRoots},
 		{Name: "car-truncated-message", Class: 0, Bytes: bTrunc},
+		{Name: "message-then-corrupt-raw-section", Class: 0, Bytes: bCorruptRaw},
+		{Name: "message-then-corrupt-dag-cbor-section", Class: 0, Bytes: bCorruptCbor},
 		{Name: "message-invocation-block-missing", Class: 2, NInv: 1, Bytes: bMissing},
 	}
 	return e, nil
